@@ -44,24 +44,25 @@ type Frame struct {
 
 // Link is the in-memory NIC of one stack.
 type Link struct {
-	w      *World
-	Idx    int
-	Name   string
-	mtu    uint32
-	caps   stack.LinkEndpointCapabilities
-	addr   tcpip.LinkAddress
-	disp   stack.NetworkDispatcher
-	id     tcpip.LinkEndpointID
-	Queue  []*Frame // emitted, not yet delivered or dropped
-	Peer   int      // link index frames are delivered to (-1: scripted peer reads the queue)
-	Sent   int
-	rx     chan func()     // receive goroutine's inbox (created on first no-wait injection)
-	fd     int             // fd link: the simulated descriptor
-	fdrx   chan []byte     // fd link: frames waiting to be read by the endpoint's dispatch loop
-	lastRx int             // fd link: length of the last frame queued for the dispatch loop
-	fdDead bool            // fd link: the dispatch loop has returned
-	Addrs  []tcpip.Address // addresses the harness assigned to this link's interface (sources the stack may use on it)
-	NoLog  bool            // frames of this link are left out of the event-log hash (their bytes depend on map iteration order)
+	w          *World
+	Idx        int
+	Name       string
+	mtu        uint32
+	caps       stack.LinkEndpointCapabilities
+	addr       tcpip.LinkAddress
+	disp       stack.NetworkDispatcher
+	id         tcpip.LinkEndpointID
+	Queue      []*Frame // emitted, not yet delivered or dropped
+	Peer       int      // link index frames are delivered to (-1: scripted peer reads the queue)
+	Sent       int
+	rx         chan func()     // receive goroutine's inbox (created on first no-wait injection)
+	fd         int             // fd link: the simulated descriptor
+	fdrx       chan []byte     // fd link: frames waiting to be read by the endpoint's dispatch loop
+	lastRx     int             // fd link: length of the last frame queued for the dispatch loop
+	fdDead     bool            // fd link: the dispatch loop has returned
+	FailWrites int             // injected fault: the next n writes to this link fail with no-buffer-space and emit nothing
+	Addrs      []tcpip.Address // addresses the harness assigned to this link's interface (sources the stack may use on it)
+	NoLog      bool            // frames of this link are left out of the event-log hash (their bytes depend on map iteration order)
 }
 
 func (l *Link) MTU() uint32                                  { return l.mtu }
@@ -78,6 +79,13 @@ func (l *Link) WritePacket(r *stack.Route, hdr buffer.Prependable, payload buffe
 	w := l.w
 	if w.storm() {
 		return nil
+	}
+	if l.FailWrites > 0 {
+		// injected fault: the device refuses the frame (transmit queue full)
+		l.FailWrites--
+		w.Faults["link_write_error"]++
+		w.Log.Byte(0xfe)
+		return tcpip.ErrNoBufferSpace
 	}
 	h := hdr.View()
 	data := make([]byte, 0, len(h)+payload.Size())
